@@ -41,6 +41,12 @@ RULE = ("(1) Old-style CNF formulas: literal = tag x {positive, '-', '~'} x {bar
         "either of the two accepted when the only new-style feature is a wildcard. "
         "(4) Configuration(['--tags=G1','--tags=G2']) with tag_expression_protocol v1/auto_detect for all ordered "
         "formulas <= 2x2 over signed {a,b,c}. "
+        "(7) Protocol histories in one process state: every sequence of 1-2 operations (and of 3 operations; quick: "
+        "string texts only) over {TagExpressionProtocol.use(V1|V2|AUTO_DETECT|DEFAULT), make_tag_expression(text, "
+        "protocol=None|V1|V2|AUTO_DETECT|DEFAULT)} with text in {pure new-style, pure old-style, neutral single tag, "
+        "mixed} as string and as list: every make gives the outcome (truth table or exception class) of its effective "
+        "protocol applied on its own (explicit one if given, DEFAULT = AUTO_DETECT, else the last use(), initially "
+        "AUTO_DETECT), and current() is what the last use() selected. "
         "(6) Container kind: every sequence of 0-2 (thorough: 0-3; quick: 3 parts over 11 words) parts over 20 words "
         "(tags, prefixed tags, limits incl. inconsistent ones, wildcard, bare operators and parentheses, malformed "
         "fragments, the empty part) under V1, V2 and AUTO_DETECT given as list and as tuple (old-style: also as one "
@@ -764,6 +770,129 @@ def check_containers(case):
             "dg": outcomes, "n": len(outcomes)}
 
 
+# ---- protocol histories ---------------------------------------------------------------------------------
+# Library use: TagExpressionProtocol.use() selects the process-wide default, make_tag_expression(text, protocol=X)
+# asks for a dialect explicitly.  In every sequence of such operations each make must behave like its EFFECTIVE
+# protocol applied in isolation - the explicit one if given (DEFAULT is AUTO_DETECT), else what the last use()
+# selected (AUTO_DETECT in a fresh process) - and current() changes through use() only.
+PH_PROTOCOLS = ("V1", "V2", "AUTO_DETECT", "DEFAULT")
+PH_TEXTS = (("pure-v2", "a and not b"), ("pure-v1", "a,b -c"), ("neutral", "a"), ("mixed", "-a and b"),
+            ("pure-v2", ["a or b", "not c"]), ("pure-v1", ["a,b", "-c"]), ("neutral", ["a"]), ("mixed", ["-a", "b or c"]))
+PH_OPS = tuple([("use", pn, None) for pn in PH_PROTOCOLS]
+               + [("make", pn, ti) for ti in range(len(PH_TEXTS)) for pn in (None,) + PH_PROTOCOLS])
+PH_OPS_SMALL = tuple(i for i, o in enumerate(PH_OPS) if o[0] == "use" or o[2] < 4)       # string texts only
+_PH_ISOLATED = {}
+
+
+def ph_outcome(fn):
+    try:
+        return real_mask(fn(), SUB4_LISTS)
+    except Exception as ex:
+        return type(ex).__name__
+
+
+def ph_isolated(pname, ti):
+    """the outcome of one protocol applied on its own (stateless dispatch of the protocol object)"""
+    key = (pname, ti)
+    if key not in _PH_ISOLATED:
+        text = PH_TEXTS[ti][1]
+        reset_protocol()
+        _PH_ISOLATED[key] = ph_outcome(lambda: getattr(P, pname).parse(given_of(text)))
+    return _PH_ISOLATED[key]
+
+
+def ph_name(member):
+    return "AUTO_DETECT" if member is P.AUTO_DETECT else member.name
+
+
+def ph_play(history):
+    """-> list of (op, outcome or None, current() after the op, model's effective protocol, model's current)"""
+    reset_protocol()
+    cur = "AUTO_DETECT"
+    out = []
+    try:
+        for i in history:
+            kind, pn, ti = PH_OPS[i]
+            eff = None
+            res = None
+            if kind == "use":
+                P.use(getattr(P, pn))
+                cur = "AUTO_DETECT" if pn == "DEFAULT" else pn
+            else:
+                eff = cur if pn is None else ("AUTO_DETECT" if pn == "DEFAULT" else pn)
+                text = PH_TEXTS[ti][1]
+                if pn is None:
+                    res = ph_outcome(lambda: make_tag_expression(given_of(text)))
+                else:
+                    res = ph_outcome(lambda: make_tag_expression(given_of(text), protocol=getattr(P, pn)))
+            out.append((PH_OPS[i], res, ph_name(P.current()), eff, cur))
+    finally:
+        reset_protocol()
+    return out
+
+
+def ph_first_fault(trace):
+    for j, (op, res, now, eff, cur) in enumerate(trace):
+        # (what current() reports after an operation is not judged by itself - the statement speaks of how texts are
+        #  read: a selection changed behind the caller's back shows as a LATER make() with the wrong outcome)
+        if op[0] == "make" and res != ph_isolated(eff, op[2]):
+            return j, "outcome"
+    return None
+
+
+def ph_opclass(op):
+    kind, pn, ti = op
+    if kind == "use":
+        return "use"
+    return "make(protocol=%s)" % ("None" if pn is None else "explicit")
+
+
+def check_protocol_history(history):
+    history = tuple(history)
+    trace = ph_play(history)
+    fault = ph_first_fault(trace)
+    v = []
+    if fault is not None:
+        j, what = fault
+        op, res, now, eff, cur = trace[j]
+        # minimal trigger: the shortest sub-sequence of the earlier operations that still breaks operation j
+        before = history[:j]
+        minimal = before
+        found = False
+        for m in range(0, len(before)):
+            for idx in itertools.combinations(range(len(before)), m):
+                cand = tuple(before[i] for i in idx) + (history[j],)
+                f = ph_first_fault(ph_play(cand))
+                if f is not None and f[0] == len(cand) - 1:
+                    minimal, found = cand[:-1], True
+                    break
+            if found:
+                break
+        d = {"subcheck": "protocol-history", "operation": ph_opclass(op),
+             "after": ">".join(ph_opclass(PH_OPS[i]) for i in minimal) or "nothing"}
+        if op[0] == "make":
+            d["requested"] = "none" if op[1] is None else ("AUTO_DETECT/DEFAULT" if op[1] in ("AUTO_DETECT", "DEFAULT")
+                                                          else "V1-or-V2")
+        if what == "current":
+            d["clause"] = "current-protocol-changed-not-by-use" if op[0] == "make" else "current-is-not-what-use-selected"
+            msg = "after %r TagExpressionProtocol.current() is %s, expected %s" % (op, now, cur)
+        else:
+            d["clause"] = "outcome-is-not-that-of-the-effective-protocol"
+            d["text"] = PH_TEXTS[op[2]][0]
+            iso = ph_isolated(eff, op[2])
+            show = lambda o: o if isinstance(o, str) else "truth table %04x" % o     # noqa: E731
+            msg = ("make_tag_expression(%r, protocol=%s) -> %s; the effective protocol %s on its own gives %s"
+                   % (PH_TEXTS[op[2]][1], op[1], show(res), eff, show(iso)))
+        v.append((d, "operations in one process %r: %s (minimal earlier operations: %r)"
+                  % ([PH_OPS[i] for i in history], msg, [PH_OPS[i] for i in minimal])))
+    makes = [t for t in trace if t[0][0] == "make"]
+    nt = ("phist", history) if len(history) > 1 and makes else None
+    last = makes[-1] if makes else None
+    return {"v": v, "nt": nt, "out": ("phist", last[3] if last else None, PH_TEXTS[last[0][2]][0] if last else None,
+                                      (last[1] if isinstance(last[1], str) else "table") if last else None),
+            "dg": [(t[0], t[1], t[2]) for t in trace], "n": len(trace)}
+
+
 # ---------------------------------------------------------------- driver
 def run(ctx):
     init_worker()
@@ -774,9 +903,11 @@ def run(ctx):
         "cnf_styled": "<=2 groups x <=2 alternatives ordered over signed {a,b,c,candor} x 27 styles" + (
             "" if quick else "; <=3 x <=3 canonical+reversed over signed {a,b,c} x 9 styles"),
         "v2_operand_occurrences": 3,
-        "v2_alphabet_3_operands": list(c07.OPS_QUICK if quick else c07.OPS_FULL),
+        "v2_alphabet_3_operands": list(c07.OPS_QUICK if quick else c07.OPS_3),
         "truth_table_rows": 16,
         "read_operation_sequence_length": 2 if quick else 3,
+        "protocol_history_operations": len(PH_OPS), "protocol_history_length": "2 (all), 3 (%s)" % (
+            "string texts" if quick else "all"),
         "read_operations": {"v1": list(H_OPS_V1), "v2": list(H_OPS_V2)},
     }
     # (1) CNF, old-style
@@ -796,12 +927,22 @@ def run(ctx):
            for i, s in enumerate(ordered_structures(("a", "b", "c"), 2, 2)) for p in ("V1", "AUTO_DETECT")]
     ctx.sweep(check_cli, cli, chunk=32, name="Configuration --tags route")
     # (2)+(3) v2 renderings and mixed texts under auto-detection
-    plan = [(1, c07.OPS_FULL), (2, c07.OPS_FULL), (3, c07.OPS_QUICK if quick else c07.OPS_FULL)]
+    plan = [(1, c07.OPS_FULL), (2, c07.OPS_FULL), (3, c07.OPS_QUICK if quick else c07.OPS_3)]
     ctx.sweep(check_render_identity, list(c07.asts(1, c07.OPS_FULL)) + list(c07.asts(2, c07.OPS_QUICK)), chunk=256,
               name="renderer self-check", replay=False)
     for n, leaves in plan:
         ctx.sweep(check_v2_auto, c07.asts(n, leaves), chunk=128, name="v2 + mixed under auto-detect, %d operands" % n)
 
+    # (7) protocol histories
+    allops = range(len(PH_OPS))
+
+    def ph_cases():
+        for k in (1, 2):
+            for h in itertools.product(allops, repeat=k):
+                yield h
+        for h in itertools.product(allops if not quick else PH_OPS_SMALL, repeat=3):
+            yield h
+    ctx.sweep(check_protocol_history, ph_cases(), chunk=256, name="protocol histories (use / make with explicit protocol)")
     # (6) container kind of the argument, accepted and rejected paths
     cl = 2 if quick else 3
     ctx.sweep(check_containers, ((ix, p) for k in range(0, cl + 1)
@@ -834,6 +975,16 @@ def run(ctx):
     ctx.guard(sum(1 for k in ctx.nt if k[0] == "cnf") > 2000, "at least 2000 distinct non-trivial CNF (structure, decoration)")
     ctx.guard(sum(1 for k in ctx.nt if k[0] == "v2") > 1000, "at least 1000 distinct non-trivial v2 ASTs")
     ctx.guard(sum(1 for k in outs if k[0] == "cnf") > 50, "at least 50 distinct CNF truth tables")
+    ph = [k for k in outs if k[0] == "phist"]
+    ctx.guard(all(any(k[1] == e and k[2] == t for k in ph) for e in ("V1", "V2", "AUTO_DETECT")
+                  for t in ("pure-v2", "pure-v1", "neutral", "mixed")),
+              "protocol histories: every effective protocol met every text kind")
+    ctx.guard(any(k[1] == "AUTO_DETECT" and k[2] == "mixed" and k[3] == "TagExpressionError" for k in ph)
+              and any(k[1] == "V1" and k[2] == "mixed" and k[3] == "table" for k in ph)
+              and any(k[1] == "V2" and k[2] == "pure-v1" and k[3] == "TagExpressionError" for k in ph),
+              "protocol histories: the three protocols are told apart by the texts (mixed rejected only by auto-detect, "
+              "old-style text rejected by V2)")
+    ctx.guard(sum(1 for k in ctx.nt if k[0] == "phist") > 10000, "at least 10000 protocol histories with a make after another operation")
     co = [k for k in outs if k[0] == "cont"]
     ctx.guard(any(k[1] == "AUTO_DETECT" and k[3] and k[4] == "TagExpressionError" for k in co),
               "container sweep: mixed parts rejected with TagExpressionError were seen")
